@@ -1,6 +1,7 @@
 package seq
 
 import (
+	"math"
 	"bytes"
 	"encoding/json"
 	"fmt"
@@ -111,9 +112,18 @@ func runPersist(pc *PersistCase, generate bool, nops int, rng *core.Rng) (out pe
 		}
 		pc.TargetMax = m.max
 		if pc.Cfg.Bounded() {
+			// the source's maximum may have been raised to around 2^63 / 2^64 (SetMaximum): stay representable
+			lim := uint64(math.MaxUint64)
+			if pc.Cfg.SizeKind == SizeCount {
+				lim = math.MaxInt64 // MaximumSize is an int
+			}
 			switch rng.Intn(5) {
 			case 0:
-				pc.TargetMax = m.max + 1 + uint64(rng.Intn(10))
+				if d := 1 + uint64(rng.Intn(10)); m.max < lim-d {
+					pc.TargetMax = m.max + d
+				} else {
+					pc.TargetMax = lim
+				}
 			case 1:
 				pc.TargetMax = max(1, m.max/2)
 			case 2:
@@ -121,6 +131,7 @@ func runPersist(pc *PersistCase, generate bool, nops int, rng *core.Rng) (out pe
 			default:
 				pc.TargetMax = max(1, m.max)
 			}
+			pc.TargetMax = min(pc.TargetMax, lim)
 		}
 	}
 	tcfg := pc.Cfg
